@@ -294,6 +294,79 @@ def gen_stmt_spec(rng, cfg=None, kinds=None):
     return sp
 
 
+def gen_orm_spec(rng, cfg=None):
+    cfg = dict(cfg or {})
+    al = Alloc(rng)
+    cfg["shared"] = []
+    sp = {
+        "kind": "orm",
+        "where": gen_pred(rng, al, cfg) if rng.random() < 0.8 else None,
+        "load": rng.choice(["none", "selectin", "joined", "subquery", "lazy", "selectin_crit", "joined_crit", "load_only", "wlc"]),
+        "crit": al.int_near_x(),
+        "limit": al.small() if rng.random() < 0.3 else None,
+        "shared": [],
+    }
+    return sp
+
+
+def reroll_spec(sp, rng):
+    """same structure, new bound values (IN lists may change length)"""
+    import copy
+
+    sp = copy.deepcopy(sp)
+
+    def newv(v):
+        if isinstance(v, bool):
+            return v
+        if isinstance(v, int):
+            if v < 20:
+                return rng.randint(2, 9)
+            if v < 3000:
+                return rng.choice(X_VALUES) + rng.choice([0, 1, -1, 40, -40, 83])
+            return rng.randint(4000, 8999)
+        if isinstance(v, str):
+            return rng.choice(S_VALUES) if rng.random() < 0.6 else "w%d" % rng.randint(9000, 9999)
+        return v
+
+    def walk(o):
+        if isinstance(o, list):
+            if o and o[0] == "bind":
+                o[2] = newv(o[2])
+                return
+            if o and o[0] in ("lit", "val"):
+                o[1] = newv(o[1])
+                return
+            if o and o[0] == "in" and isinstance(o[-1], dict):
+                walk(o[1])
+                proto = o[2][0] if o[2] else 1000
+                n = rng.choice([0, 1, 2, 3, 5])
+                o[2] = [newv(proto) for _ in range(n)]
+                return
+            if o and o[0] == "text":
+                nm = list(o[2])[0]
+                o[2][nm] = newv(o[2][nm])
+                return
+            for x in o:
+                walk(x)
+        elif isinstance(o, dict):
+            for k, v in list(o.items()):
+                if k in ("limit", "offset", "crit", "extra", "ret_bind", "off") and isinstance(v, int):
+                    o[k] = newv(v)
+                elif k == "sval" and isinstance(v, str):
+                    o[k] = newv(v)
+                elif k == "rows":
+                    for r in v:
+                        r["bx"], r["by"] = rng.randint(4000, 8999), rng.randint(4000, 8999)
+                elif k == "shared":
+                    for it in v:
+                        it[1] = rng.randint(4000, 8999)
+                else:
+                    walk(v)
+
+    walk(sp)
+    return sp
+
+
 # --------------------------------------------------------------------------- builder
 class Fixture:
     """tables + a TypeDecorator with a bind_expression (lower())"""
@@ -326,6 +399,38 @@ class Fixture:
             sa.Column("tid", sa.Integer),
             sa.Column("v", sa.Integer),
         )
+
+    def mapped(self):
+        """imperatively mapped classes T (t) and U (u) with T.us / U.t"""
+        if getattr(self, "_mapped", None):
+            return self._mapped
+        import sqlalchemy as sa
+        from sqlalchemy import orm
+
+        reg = orm.registry()
+
+        class T:
+            pass
+
+        class U:
+            pass
+
+        reg.map_imperatively(U, self.u)
+        reg.map_imperatively(
+            T,
+            self.t,
+            properties={
+                "us": orm.relationship(
+                    U,
+                    primaryjoin=self.t.c.id == orm.foreign(self.u.c.tid),
+                    order_by=self.u.c.id,
+                    backref="t",
+                    viewonly=True,
+                )
+            },
+        )
+        self._mapped = (T, U)
+        return self._mapped
 
     def populate(self, conn):
         self.md.create_all(conn)
@@ -426,6 +531,34 @@ def build_stmt(fx, sp):
         return st, order
 
     k = sp["kind"]
+    if k == "orm":
+        from sqlalchemy import orm
+
+        T, U = fx.mapped()
+        st = sa.select(T)
+        if sp.get("where") is not None:
+            st = st.where(ex(sp["where"]))
+        ld = sp["load"]
+        if ld == "selectin":
+            st = st.options(orm.selectinload(T.us))
+        elif ld == "joined":
+            st = st.options(orm.joinedload(T.us))
+        elif ld == "subquery":
+            st = st.options(orm.subqueryload(T.us))
+        elif ld == "lazy":
+            st = st.options(orm.lazyload(T.us))
+        elif ld == "selectin_crit":
+            st = st.options(orm.selectinload(T.us.and_(U.v > sp["crit"])))
+        elif ld == "joined_crit":
+            st = st.options(orm.joinedload(T.us.and_(U.v > sp["crit"])))
+        elif ld == "load_only":
+            st = st.options(orm.load_only(T.x), orm.selectinload(T.us))
+        elif ld == "wlc":
+            st = st.options(orm.selectinload(T.us), orm.with_loader_criteria(U, U.v > sp["crit"]))
+        st = st.order_by(t.c.id)
+        if sp.get("limit") is not None:
+            st = st.limit(sp["limit"])
+        return st, None
     if k == "select":
         st, order = select_of(sp)
         st = st.order_by(*order)
